@@ -51,8 +51,10 @@ def check_visitors(ctx, R="C10.visitors"):
             fields = [s_.target.id for s_ in cls.body if isinstance(s_, ast.AnnAssign) and isinstance(s_.target, ast.Name)]
             if consts and all(k in attrs_read for k in consts):
                 ctx.ok(R, cls, f"s.{c}: protocol node read through {consts}")
-            elif fields and all(f in attrs_read for f in fields) and not consts:
-                ctx.ok(R, cls, f"s.{c}: read through its fields {fields} by its parent's visitor")
+            elif fields and all(f in attrs_read for f in fields) and not consts and any(
+                c in unparse(s2.annotation) for oc in sa.classes.values() if oc is not cls for s2 in oc.body if isinstance(s2, ast.AnnAssign)
+            ):
+                ctx.ok(R, cls, f"s.{c}: a sub-node of another syntax node, read through its fields {fields} by that node's visitor")
             else:
                 ctx.finding(
                     R,
@@ -198,6 +200,27 @@ def check_tokeninfo(ctx, R="C10.errargs"):
             else:
                 ctx.finding(R, GRAMFILE, f"subheader.{fn.name}: undispatched {p}", f"parser helper `{fn.name}` reads token/node positions of `{p}` without the isinstance(·, tokenize.TokenInfo) dispatch", qualname=f"subheader.{fn.name}")
     ctx.floor(R, n, 6, "token / node parameters of error helpers")
+    # get_expr_name: the table lookup must have a default (the invalid-target rules call it with any expression node)
+    gen = next((x for x in ast.walk(sh) if isinstance(x, ast.FunctionDef) and x.name == "get_expr_name"), None)
+    if gen is None:
+        raise AnalysisError("parser helper get_expr_name not found")
+    for sub in ast.walk(gen):
+        if isinstance(sub, ast.Subscript) and unparse(sub.value) == "EXPR_NAME_MAPPING" and isinstance(sub.ctx, ast.Load):
+            protected = False
+            cur = sub
+            while getattr(cur, "_parent", None) is not None:
+                cur = cur._parent
+                if isinstance(cur, ast.Try) and any(h.type is not None and "KeyError" in unparse(h.type) and not any(isinstance(x, ast.Raise) and not _error_call(x.exc) for x in ast.walk(h)) for h in cur.handlers):
+                    protected = True
+            if not protected:
+                ctx.finding(
+                    R,
+                    GRAMFILE,
+                    "subheader.get_expr_name: lookup without default",
+                    "get_expr_name indexes EXPR_NAME_MAPPING without a default: Scenic expression nodes (and any node class missing from the table) reach it "
+                    "through the invalid-target rules and escape as KeyError instead of a syntax error",
+                    qualname="subheader.get_expr_name",
+                )
     # grammar actions: variables bound to tokens (or to rules that return a token) are TokenInfo
     from pegen import grammar as gr
 
